@@ -18,6 +18,7 @@ RULE = ('cases = generated per-cluster log2(CPM+1) cell matrices (2-8 clusters o
         'optional gene list, n_valid, exact_penetrance, two run configurations (1-3 workers, max_gb 1e-7..20, mask rows-at-a-time) and an optional '
         'cluster renaming; every (pair, gene) of every run is compared with the model; '
         'non-trivial = some pair has >=1 gene that must be recorded and >=1 gene that fails exactly one criterion; distinct = distinct spec hash')
+RULE += '; additions: gene lists of 257-330 genes with few markers, some beyond index 255'
 ASSUMPTIONS = [
     'penetrance P = fraction of cells with log2(CPM+1) >= 1 (the ge1 array: precomputed_stats_file.md says gt1/gt0 are not used for marker selection)',
     '"up" for the pair stored as pair_to_idx[level][node1][node2] means mean(node2) > mean(node1) (score_differential_genes docstring)',
